@@ -93,6 +93,8 @@ def plume_spec(f, sph, x, y, depth):
         xr = (px - c[0]) * math.cos(t) + (py - c[1]) * math.sin(t)
         yr = -(px - c[0]) * math.sin(t) + (py - c[1]) * math.cos(t)
         v = xr * xr / (a * a) + yr * yr / (b * b)
+    if f.get("_want_v"):
+        return v
     return v <= 1.0, abs(v - 1.0)
 
 
@@ -186,6 +188,15 @@ def run(chk):
     for _ in range(25 if quick else 400):
         sph = rng.random() < 0.4
         f = g.plume("p", sph)
+        aimed = _ % 3 == 0 and len(f["cross section depths"]) >= 2
+        if aimed:
+            # aimed at the cyclic interpolation of the ellipse azimuth: elongated cross-sections whose azimuth jumps by
+            # more than half a turn between neighbours, in both directions
+            n = len(f["cross section depths"])
+            f["eccentricity"] = [round(rng.uniform(0.6, 0.95), 3) for _k in range(n)]
+            seqs = [[10.0, 350.0], [350.0, 10.0], [5.0, 200.0], [200.0, 5.0], [170.0, 355.0], [300.0, 100.0]]
+            sq = rng.choice(seqs)
+            f["rotation angles"] = [sq[k % 2] for k in range(n)]
         wj = {"version": "1.1", "features": [f]}
         if sph:
             wj["coordinate system"] = {"model": "spherical", "depth method": "begin segment"}
@@ -201,6 +212,9 @@ def run(chk):
                 d = rng.choice(ds + [dmin, dmax])                   # exactly on a table depth
             else:
                 d = rng.uniform(dmin - 1e3, min(dmax, ds[-1] + 1e5) + 1e3)
+            if aimed and k % 2 == 0:
+                jj = rng.randrange(len(ds) - 1)
+                d = rng.uniform(ds[jj], ds[jj + 1])                 # strictly between two cross-sections
             j = rng.randrange(len(ds))
             amax = max(f["semi-major axis"])
             x = f["coordinates"][j][0] + rng.uniform(-1.3, 1.3) * amax
